@@ -80,6 +80,8 @@ def _nmax(ref, hard, cap):
 
 def gen_case(rng, tier):
     lim = _limits(tier)
+    if rng.random() < 0.04:
+        lim = _limits("thorough")  # swarm: a few runs on deeper levels / larger classes
     mesh = rng.random() < 0.3
     if mesh:
         items = common.gen_mesh_basis(rng)
@@ -269,6 +271,7 @@ def execute(case):
     if sched.lock_holder_preempts:
         out.probe("preempt_while_lock_held", sched.lock_holder_preempts)
     out.fault("preemption", sched.switches)
+    out.probe("policy_" + str(case["schedule"].get("policy", case["schedule"]["mode"])))
     if case["schedule"].get("policy") == "stall":
         out.fault("stall")
     out.nontrivial = bool(sched.lock_holder_preempts or sched.counters.get("contended_acquire"))
